@@ -167,10 +167,11 @@ fn tag_optional_children(
     if let Some(current_tag) = root.get_child(&to_str(e.name())?) {
         let parent = current_tag.inner_t();
 
-        for (child_name, child_count) in children_count.iter() {
-            if let Some(c) = parent.get_child(child_name) {
-                if child_count == &c.inner_t().count() {
-                    to_optional.push(child_name.clone());
+        // iterate the children (not the HashMap) to keep the result independent of the hash seed
+        for child in parent.children().iter() {
+            if let Some(child_count) = children_count.get(&child.inner_t().name) {
+                if child_count == &child.inner_t().count() {
+                    to_optional.push(child.inner_t().name.clone());
                 }
             }
         }
